@@ -1,0 +1,5 @@
+//go:build !verif
+
+package mq
+
+func verifStep(b *buffer, v wireType) {}
